@@ -26,6 +26,13 @@ CLAIMED = {
             "are compared with a reference computed from the configs and the rulebook structure.",
             "Trusted: mc/ref/rb.py rule selection; the small readers of the signed formats in the check.",
             "DESIGN.md §3 C03"),
+    "C09": ("bounded-exhaustive enumeration of PatchTrees (synthetic forests and real make_patch outputs) x vendors x commit/finalize flags; displayed patch, cmd_paths and apply_deploy_rulebook compared line by line; deploy-rule parameters against a reference chain matcher",
+            "All PatchTree forests up to 4-5 nodes over per-vendor alphabets (with the formatters' special block heads) for 10 block-structured "
+            "and 3 flattening vendors, all PatchTrees the real make_patch yields over small grammar universes, and generated deploy "
+            "rulebooks: the three renderings must agree, the session wrapper must equal a hand-written table, and every Command must carry "
+            "the parameters of the rule chain matching its path.",
+            "Trusted: wrapper table and reference flattening in the check; distinct sibling rows in synthetic trees; XPL bodies well-formed (syntactic rule in the check).",
+            "DESIGN.md §3 C09"),
     "C12": ("stateless model checking of the real annet.parallel under a controlled scheduler on virtual processes/queues: all interleavings with state de-duplication, plus preemption-bounded DFS",
             "The unmodified Parallel.irun/run, _check_children and _pool_worker run on virtual multiprocessing primitives; every "
             "scheduling decision (worker steps, feeder flushes, process exits, parent polls) is enumerated. Small configurations "
